@@ -57,6 +57,8 @@ var c20Alphabet = []string{
 	"SELECT n FROM `$DIR/sub/../t`",
 	"SELECT n FROM `$DIR/./t.csv`",
 	"SELECT n FROM u UNION ALL SELECT n FROM t FOR UPDATE",
+	// an UPDATE whose new value reads the table being updated: every row sees the table as it was before the statement
+	"UPDATE t SET n = (SELECT MAX(n) FROM t) + 1",
 	// a cell of u used as a clause value (never fewer than the rows of t), then something that builds new strings
 	"SELECT n FROM t LIMIT (SELECT n FROM u); SELECT 'x' || 'y', 'p' || 'q' INTO @s1, @s2",
 }
@@ -136,6 +138,20 @@ func (m *c20Model) step(stmt string) []int {
 	case "SELECT n FROM t LIMIT (SELECT n FROM u); SELECT 'x' || 'y', 'p' || 'q' INTO @s1, @s2":
 		m.read("u", false)
 		return append([]int{}, m.read("t", false).rows...)
+	case "UPDATE t SET n = (SELECT MAX(n) FROM t) + 1":
+		e := m.read("t", true)
+		if len(e.rows) > 0 {
+			mx := e.rows[0]
+			for _, n := range e.rows {
+				if n > mx {
+					mx = n
+				}
+			}
+			for i := range e.rows {
+				e.rows[i] = mx + 1
+			}
+			e.dirty = true
+		}
 	case "DELETE FROM t WHERE n >= 100":
 		e := m.read("t", true)
 		kept := e.rows[:0:0]
